@@ -99,6 +99,13 @@ def run(chk, tier):
     accs = ["segment_size", "message_type", "date_time", "segmented", "segment_count", "segment_number", "message_size_bytes", "message_size"]
     panics.check_no_panic(chk, prog, [MH + "::" + a for a in accs], "C10 accessors")
 
+    # the header reaches these accessors only through decode_message_header: it must be one read of the whole 28-byte struct
+    # (the obligation C03 states for framing)
+    DH = "nexrad_decode::messages::decode_message_header"
+    t, f3 = eval_or_blind(chk, sym.Evaluator(prog, opaque_local=["nexrad_decode::util::deserialize"]), "VN", DH, [P("reader")])
+    if t is not None:
+        chk.ob("R-WIRE", DH, t[0] == "call" and t[1].startswith("nexrad_decode::util::deserialize::<") and MH in t[1], "a header is read as one MessageHeader struct", f3.where(), key="header-read")
+
 
 def canon_size(t):
     """x << 1 and x * 2 denote the same value when no bit is lost; normalise `Shl(x,1)` to `Mul(x,2)` only for
